@@ -224,4 +224,127 @@ theorem update_done_iff_dense (cs : Consts K) (sqrtF : K → K) (poison : K) (st
   cases hv : validateUpdate a false P c A b G h xlb xub with
   | some msg => simp
   | none => simp
+
+/-! ## sparse `update`: the classification is complete as well -/
+
+/-- what a sparse `update` demands of a passed `P`: the set-up dimensions, and in every column the stored upper-triangular pattern
+    is a prefix of the column's row indices (the code copies the first entries of each column) -/
+def sparsePOk (a : AnySolver K) (P : Option (RawMat K)) : Prop :=
+  match P with
+  | none => True
+  | some P => P.rows = a.n ∧ P.cols = a.n ∧ ∀ j, j < a.n → maskColRows a.maskP a.n j <+: colRows P j
+
+/-- ... of a passed `A` / `G`: the set-up dimensions and exactly the set-up sparsity pattern -/
+def sparseMOk (M : Option (RawMat K)) (r c : Nat) (mask : Array Bool) : Prop :=
+  match M with
+  | none => True
+  | some M => M.rows = r ∧ M.cols = c ∧ M.nnz = (mask.filter id).size ∧ M.mask = mask
+
+def UpdateSparseOk (a : AnySolver K) (P : Option (RawMat K)) (c : Option (RawVec K))
+    (A : Option (RawMat K)) (b : Option (RawVec K)) (G : Option (RawMat K)) (h : Option (RawVec K))
+    (xlb xub : Option (RawVec K)) : Prop :=
+  sparsePOk a P ∧ sparseMOk A a.p a.n a.maskA ∧ sparseMOk G a.m a.n a.maskG ∧
+  vecOk c a.n ∧ vecOk b a.p ∧ vecOk h a.m ∧ vecOk xlb a.n ∧ vecOk xub a.n
+
+theorem prefix_iff_take (w h : List Nat) : w <+: h ↔ ¬ (h.length < w.length) ∧ ¬ ((h.take w.length != w) = true) := by
+  constructor
+  · intro hp
+    refine ⟨Nat.not_lt.mpr hp.length_le, ?_⟩
+    have := List.prefix_iff_eq_take.mp hp
+    simp [← this]
+  · intro ⟨_, h2⟩
+    have : h.take w.length = w := by simpa using h2
+    rw [← this]
+    exact List.take_prefix _ _
+
+theorem chkP_sparse_none_iff (n : Nat) (maskP : Array Bool) (P : RawMat K) :
+    (match (List.range n).find? (fun j => decide ((colRows P j).length < (maskColRows maskP n j).length)) with
+      | some _ => some "P nonzeros missmatch"
+      | none =>
+        match (List.range n).find? (fun j => (colRows P j).take (maskColRows maskP n j).length != maskColRows maskP n j) with
+        | some _ => some "P sparsity pattern missmatch"
+        | none => (none : Option String)) = none ↔ ∀ j, j < n → maskColRows maskP n j <+: colRows P j := by
+  constructor
+  · intro h j hj
+    rw [prefix_iff_take]
+    cases h1 : (List.range n).find? (fun j => decide ((colRows P j).length < (maskColRows maskP n j).length)) with
+    | some x => rw [h1] at h; cases h
+    | none =>
+      rw [h1] at h
+      cases h2 : (List.range n).find? (fun j => (colRows P j).take (maskColRows maskP n j).length != maskColRows maskP n j) with
+      | some x => rw [h2] at h; cases h
+      | none =>
+        rw [List.find?_eq_none] at h1 h2
+        have a1 := h1 j (List.mem_range.mpr hj)
+        have a2 := h2 j (List.mem_range.mpr hj)
+        exact ⟨by simpa using a1, a2⟩
+  · intro h
+    have h1 : (List.range n).find? (fun j => decide ((colRows P j).length < (maskColRows maskP n j).length)) = none := by
+      rw [List.find?_eq_none]
+      intro j hj
+      have := ((prefix_iff_take _ _).mp (h j (List.mem_range.mp hj))).1
+      simpa using this
+    have h2 : (List.range n).find? (fun j => (colRows P j).take (maskColRows maskP n j).length != maskColRows maskP n j) = none := by
+      rw [List.find?_eq_none]
+      intro j hj
+      exact ((prefix_iff_take _ _).mp (h j (List.mem_range.mp hj))).2
+    rw [h1, h2]
+
+/-- **classification of `update` arguments is complete (sparse back ends)**: accepted exactly when every argument that is passed has
+    the dimensions of the set-up problem, `A`/`G` have exactly the set-up pattern, and in every column of `P` the stored
+    upper-triangular pattern is a prefix of the column's rows -/
+theorem validateUpdate_sparse_none_iff (a : AnySolver K) (P : Option (RawMat K)) (c : Option (RawVec K))
+    (A : Option (RawMat K)) (b : Option (RawVec K)) (G : Option (RawMat K)) (h : Option (RawVec K))
+    (xlb xub : Option (RawVec K)) :
+    validateUpdate a true P c A b G h xlb xub = none ↔ UpdateSparseOk a P c A b G h xlb xub := by
+  unfold validateUpdate UpdateSparseOk
+  simp only [orElse_none_iff]
+  refine and_congr ?_ (and_congr ?_ (and_congr ?_ (and_congr ?_ (and_congr ?_ (and_congr ?_ (and_congr ?_ ?_))))))
+  · cases P with
+    | none => simp [sparsePOk]
+    | some P =>
+      by_cases h1 : P.rows = a.n
+      · by_cases h2 : P.cols = a.n
+        · simp only [sparsePOk, h1, h2, ne_eq, not_true_eq_false, decide_false, Bool.or_self, Bool.false_eq_true, if_false, if_true, true_and]
+          exact chkP_sparse_none_iff a.n a.maskP P
+        · simp [sparsePOk, h1, h2]
+      · simp [sparsePOk, h1]
+  · cases A with
+    | none => simp [sparseMOk]
+    | some M =>
+      by_cases h1 : M.rows = a.p <;> by_cases h2 : M.cols = a.n <;> by_cases h3 : M.nnz = (a.maskA.filter id).size <;>
+        by_cases h4 : M.mask = a.maskA <;> simp [sparseMOk, h1, h2, h3, h4]
+  · cases G with
+    | none => simp [sparseMOk]
+    | some M =>
+      by_cases h1 : M.rows = a.m <;> by_cases h2 : M.cols = a.n <;> by_cases h3 : M.nnz = (a.maskG.filter id).size <;>
+        by_cases h4 : M.mask = a.maskG <;> simp [sparseMOk, h1, h2, h3, h4]
+  · cases c with
+    | none => simp [vecOk]
+    | some v => by_cases h1 : v.data.size = a.n <;> simp [vecOk, h1]
+  · cases b with
+    | none => simp [vecOk]
+    | some v => by_cases h1 : v.data.size = a.p <;> simp [vecOk, h1]
+  · cases h with
+    | none => simp [vecOk]
+    | some v => by_cases h1 : v.data.size = a.m <;> simp [vecOk, h1]
+  · cases xlb with
+    | none => simp [vecOk]
+    | some v => by_cases h1 : v.data.size = a.n <;> simp [vecOk, h1]
+  · cases xub with
+    | none => simp [vecOk]
+    | some v => by_cases h1 : v.data.size = a.n <;> simp [vecOk, h1]
+
+/-- `update` on a set-up sparse solver succeeds exactly on arguments that fit the set-up dimensions and patterns; any other call is
+    rejected (and changes nothing: `rejected_is_identity`) -/
+theorem update_done_iff_sparse (cs : Consts K) (sqrtF : K → K) (poison : K) (st : ApiState K) (a : AnySolver K)
+    (hs : st.sol = some a) (hd : a.s.be.isDense = false) (P : Option (RawMat K)) (c : Option (RawVec K))
+    (A : Option (RawMat K)) (b : Option (RawVec K)) (G : Option (RawMat K)) (h : Option (RawVec K))
+    (xlb xub : Option (RawVec K)) (reuse : Bool) :
+    (apiStep cs sqrtF poison st (.update P c A b G h xlb xub reuse)).2 = Outcome.done ↔ UpdateSparseOk a P c A b G h xlb xub := by
+  rw [← validateUpdate_sparse_none_iff]
+  simp only [apiStep, hs, hd, Bool.not_false]
+  cases hv : validateUpdate a true P c A b G h xlb xub with
+  | some msg => simp
+  | none => simp
 end Piqp.C05
